@@ -48,15 +48,16 @@ var FaultKinds = []string{FaultEOF, FaultUnexpected, FaultCustom, FaultPartial, 
 // function of the configuration and of the order in which Read calls acquire
 // the mutex.
 type Reader struct {
-	mu     sync.Mutex
-	data   []byte
-	off    int
-	Plan   []int // chunk sizes, cycled; empty = fill the whole buffer
-	pi     int
-	Fault  int    // byte offset at which the source dies; <0 = never
-	Kind   string // fault kind
-	Delays []int  // per-Read delay code, cycled: 0 none, 1..9 Gosched x k, >=10 sleep microseconds
-	di     int
+	mu         sync.Mutex
+	data       []byte
+	off        int
+	Plan       []int // chunk sizes, cycled; empty = fill the whole buffer
+	pi         int
+	Fault      int           // byte offset at which the source dies; <0 = never
+	Kind       string        // fault kind
+	Delays     []int         // per-Read delay code, cycled: 0 none, 1..9 Gosched x k, >=10 sleep microseconds
+	FaultDelay time.Duration // the first Read that reports an injected failure takes this long to return (a device that hangs before it gives up)
+	di         int
 
 	Calls       int
 	Faulted     int // number of Reads that returned an injected error
@@ -159,7 +160,14 @@ func (r *Reader) Read(p []byte) (int, error) {
 		}
 	}
 	r.Delivered += n
+	slowFail := r.FaultDelay
+	if err == nil || err == io.EOF && r.Fault < 0 || r.Faulted != 1 {
+		slowFail = 0 // only the first failing Read hangs; later ones fail at once
+	}
 	r.mu.Unlock()
+	if slowFail > 0 {
+		time.Sleep(slowFail)
+	}
 	switch {
 	case delay == 0:
 	case delay < 10:
